@@ -312,7 +312,35 @@ def verdict(desc):
         state = "".join("1" if conv[m_] is not None else "0" for m_ in ("fwd", "rev"))
         out.label("lbgs-fwd/rev-converged=" + state)
         if state in ("10", "01"):
-            out.fail("solver_lbgs/converges_in_one_mode_only", "LinearBlockGS(atol=rtol=1e-9, maxiter=1000) converged(fwd,rev)=%s" % state)
+            # "Did not converge" is not yet "diverged": the stiffness entries are ~1e9, so the residual of one mode may stall
+            # at its round-off floor above the requested 1e-9 while the answer is long converged (observed: rev done in 4
+            # iterations, fwd stalled for 1000).  The failing mode is therefore re-run without the convergence error and
+            # its totals are compared with those of the converging mode: a stalled-but-converged solve agrees, a reverse
+            # operator that is not the transpose of the forward one does not.
+            good, bad = ("fwd", "rev") if state == "10" else ("rev", "fwd")
+            pa = build(desc, bad, lin="lbgs", lbgs_tol=1e-9)
+            npts = 2 if desc["topo2"] == "multipoint" else 1
+            for i in range(npts):
+                ls = getattr(pa.model, "AS_point_%d" % i).coupled.linear_solver
+                ls.options["err_on_non_converge"] = False
+            Jb = None
+            try:
+                pa.run_model()
+                Jb = _dense(pa.compute_totals(of=of, wrt=wrt))
+            except ValueError as e:
+                if "infs or NaNs" not in str(e):
+                    raise
+            pa.cleanup()
+            if Jb is None or not all(np.all(np.isfinite(v)) for v in Jb.values()):
+                out.fail("solver_lbgs/converges_in_one_mode_only",
+                         "LinearBlockGS(atol=rtol=1e-9, maxiter=1000) converges in %s mode and blows up in %s mode" % (good, bad))
+            else:
+                for k in conv[good]:
+                    sc = max(float(np.max(np.abs(conv[good][k]))), fm[k[0]] / xm[k[1]] * 1e-6, 1e-300)
+                    # (a residual stalled at its floor leaves an error of floor x conditioning: observed 6e-5 of a block)
+                    out.close("solver_lbgs/one_mode_stalled/d_%s" % k[0].split(".")[-1], Jb[k], conv[good][k], rtol=1e-3,
+                              atol=1e-5 * max(fm[k[0]], 1e-9) / xm[k[1]], scale=sc, msg="wrt %s (%s stalled)" % (k[1], bad))
+                out.label("lbgs-one-mode-stalled-at-roundoff")
     out.label("topo=" + topo)
     for w in wrt:
         out.label("wrt=" + w.split(".")[-1].rstrip("_01"))
